@@ -165,7 +165,9 @@ impl<'a> PrettyPrinter<'a> {
         // SAFETY: The param must be simple if the parens is optional.
         let ctx = ctx.with_mode(Mode::CodeCont);
 
+        // The parentheses cannot be omitted if there is any comment to keep inside.
         let is_single_simple = is_unnamed
+            && !has_comment_children(params.to_untyped())
             && is_only_one_and(params.children(), |it| {
                 matches!(
                     *it,
